@@ -2,8 +2,8 @@ package sym
 
 import (
 	"fmt"
-	"strings"
 	"go/types"
+	"strings"
 
 	"golang.org/x/tools/go/ssa"
 
@@ -45,11 +45,15 @@ type cellInfo struct {
 	w    int
 }
 
-type chanInit struct{ Count, Cap int; Closed bool }
+type chanInit struct {
+	Count, Cap int
+	Closed     bool
+}
 
 type spawnedThread struct {
-	fn   Value
-	args []Value
+	fn      Value
+	args    []Value
+	harness bool // started by vf.Go (a harness thread), not by a go statement of the code under test
 }
 
 type Tracer struct {
@@ -64,6 +68,7 @@ type Tracer struct {
 	tag       string // suffix that makes register names of different events at one position distinct
 	lastEv    int
 	held      []int
+	rheld     []int // RWMutexes held for reading
 	inSummary bool
 
 	mutexID map[*Value]int
@@ -74,14 +79,15 @@ type Tracer struct {
 	slotID  map[string]int
 
 	// initial abstract state (snapshot at TraceStart)
-	Chans  []chanInit
-	Seqs   [][]int64
-	Cells  []int64 // initial object id (or value) of every shared cell
-	CellK  []string
-	WGs    []int
-	NMutex int
-	Slots  []string
+	Chans    []chanInit
+	Seqs     [][]int64
+	Cells    []int64 // initial object id (or value) of every shared cell
+	CellK    []string
+	WGs      []int
+	NMutex   int
+	Slots    []string
 	NThreads int
+	Helpers  []int // thread ids of goroutines started by the code under test
 }
 
 func newTracer(thread, maxEvents int) *Tracer {
@@ -107,6 +113,11 @@ func (tr *Tracer) emit(ex *Exec, e TraceEvent) {
 	e.Pre = tr.pre
 	tr.pre = nil
 	e.Locks = append([]int(nil), tr.held...)
+	switch e.Kind {
+	case "load", "seqlen", "seqsnap", "seqget", "len":
+		// a read lock of a RWMutex protects reads only
+		e.Locks = append(e.Locks, tr.rheld...)
+	}
 	tr.events = append(tr.events, e)
 	if len(tr.events) > tr.MaxEvents {
 		tr.events = append(tr.events, TraceEvent{Kind: "cutoff"})
@@ -165,7 +176,7 @@ func (ex *Exec) trShare(v Value) {
 			tr.Cells = append(tr.Cells, int64(id))
 			tr.CellK = append(tr.CellK, "seq")
 		case *types.Struct:
-			if isNamed(ft, "sync", "Mutex") {
+			if isNamed(ft, "sync", "Mutex") || isNamed(ft, "sync", "RWMutex") {
 				tr.mutexID[cell] = tr.NMutex
 				tr.NMutex++
 			}
@@ -336,6 +347,32 @@ func (ex *Exec) trUnlock(p *Value) bool {
 	return true
 }
 
+func (ex *Exec) trRLock(p *Value) bool {
+	id, ok := ex.tr.mutexID[p]
+	if !ok {
+		return false
+	}
+	ex.tr.emit(ex, TraceEvent{Kind: "rlock", Obj: rc(uint64(id))})
+	ex.tr.rheld = append(ex.tr.rheld, id)
+	return true
+}
+
+func (ex *Exec) trRUnlock(p *Value) bool {
+	id, ok := ex.tr.mutexID[p]
+	if !ok {
+		return false
+	}
+	ex.tr.emit(ex, TraceEvent{Kind: "runlock", Obj: rc(uint64(id))})
+	h := ex.tr.rheld
+	for i := len(h) - 1; i >= 0; i-- {
+		if h[i] == id {
+			ex.tr.rheld = append(h[:i:i], h[i+1:]...)
+			break
+		}
+	}
+	return true
+}
+
 func (ex *Exec) trLoad(addr *Value) (Value, bool) {
 	ci, ok := ex.tr.cellID[addr]
 	if !ok {
@@ -486,7 +523,10 @@ func (ex *Exec) trSpawn(fn Value, args []Value) {
 	if tr.started {
 		ex.abort("goroutines must be created before vf.TraceStart in a traced harness")
 	}
-	tr.threads = append(tr.threads, spawnedThread{fn, args})
+	tr.threads = append(tr.threads, spawnedThread{fn, args, ex.spawningHarness})
+	if !ex.spawningHarness {
+		tr.Helpers = append(tr.Helpers, len(tr.threads))
+	}
 }
 
 // EventString renders an event for diagnostics.
